@@ -1162,10 +1162,10 @@ func init() {
 		return nil
 	}`}}})
 	addMutant(Mutant{Name: "c07-reply-text-non-ascii-constant", Props: []string{"C07"}, Rule: "R-ECHO", KeySub: "reply-text",
-		Why: "a typographic dash in an authorization denial text: AuthorServerMsg is ASCII-only, the reply never marshals",
+		Why:   "a typographic dash in an authorization denial text: AuthorServerMsg is ASCII-only, the reply never marshals",
 		Edits: []Edit{{File: "cmds/server/config/aaa.go", Old: `tq.SetAuthorReplyServerMsg("authorization denied")`, New: `tq.SetAuthorReplyServerMsg("authorization denied – no authorizer")`}}})
 	addMutant(Mutant{Name: "c07-reply-echoes-port-unvalidated-path", Props: []string{"C07"}, Rule: "R-ECHO", KeySub: "reply-text",
-		Why: "the accounting denial echoes the raw request body instead of a validated field",
+		Why:   "the accounting denial echoes the raw request body instead of a validated field",
 		Edits: []Edit{{File: "cmds/server/handlers/acct.go", Old: `fmt.Sprintf("failed to lookup user [%s] for accounting login", string(body.User))`, New: `fmt.Sprintf("failed to lookup user [%s] for accounting login", string(request.Body[8:]))`}}})
 	addMutant(Mutant{Name: "c19-status-validated-before-length-test", Props: []string{"C19", "C07"}, Rule: "R-SIBLING", KeySub: "AuthorReply:mismatch-producer",
 		Why: "a decoder returns a content error before the length-sum test: a wrong-key body fails it first, is not counted, and reaches a handler",
@@ -1173,4 +1173,82 @@ func init() {
 		return err
 	}
 	if a.Len() != serverMsgLen+dataLen+totalArgLen {`}}})
+}
+
+func init() {
+	addMutant(Mutant{Name: "c17-update-loop-exits-on-cancel", Props: []string{"C17"}, Rule: "R-NOBLOCK", KeySub: "send:query",
+		Why: "the loader's update loop returns on cancellation while Get still sends on the unbuffered query channel: a connection accepted afterwards blocks forever and Serve never returns",
+		Edits: []Edit{{File: "cmds/server/loader/loader.go", Old: `		select {
+		case c := <-l.Config():`, New: `		select {
+		case <-l.ctx.Done():
+			return
+		case c := <-l.Config():`}}})
+	addMutant(Mutant{Name: "c17-lookup-goroutine-returns-silently", Props: []string{"C17", "C13"}, Rule: "R-", KeySub: "",
+		Why: "the lookup goroutine returns on a deny hit without answering: the connection goroutine waits forever on the reply channel",
+		Edits: []Edit{{File: "cmds/server/loader/loader.go", Old: `				if prefixDeny.deny(q.remote) {
+					q.cb <- secretProvider{err: fmt.Errorf("remote address connection not allowed by prefixDeny filter [%v]", q.remote.String())}
+					close(q.cb)
+					return
+				}`, New: `				if prefixDeny.deny(q.remote) {
+					return
+				}`}}})
+	addMutant(Mutant{Name: "c09-wrapper-remembers-first-flags", Props: []string{"C09"}, Rule: "R-CONFINED", KeySub: "connection-state",
+		Why: "the stream wrapper keeps the flags of the last packet read; another session's reply could use them",
+		Edits: []Edit{{File: "crypt.go", Old: `	// proxy if set, will strip the ha-proxy style ascii header
+	proxy bool
+}`, New: `	// proxy if set, will strip the ha-proxy style ascii header
+	proxy bool
+	last  HeaderFlag
+}`},
+			{File: "crypt.go", Old: `	crypterRead.Inc()
+	return &p, nil`, New: `	crypterRead.Inc()
+	c.last = p.Header.Flags
+	return &p, nil`}}})
+	addMutant(Mutant{Name: "c15-providers-kept-when-build-empty", Props: []string{"C15", "C13", "C16"}, Rule: "R-", KeySub: "",
+		Why: "providers are replaced only when the build yields some, filters always: lookups see a mixture of two configurations",
+		Edits: []Edit{{File: "cmds/server/loader/loader.go", Old: `			providers = l.build(c)
+`, New: `			if built := l.build(c); len(built) > 0 {
+				providers = built
+			}
+`}}})
+	addMutant(Mutant{Name: "c11-localize-scope-in-place", Props: []string{"C11", "C13", "C15", "C16"}, Rule: "R-BUILDWRITE", KeySub: "LocalizeToScope",
+		Why:   "the scope is written into the backing array every per-scope copy of the user shares: the authorizer built for an earlier scope sees a later scope's name",
+		Edits: []Edit{{File: "cmds/server/config/types.go", Old: `	u.Scopes = []string{scope}`, New: `	u.Scopes = append(u.Scopes[:0], scope)`}}})
+	addMutant(Mutant{Name: "c13-keychain-keys-by-group", Props: []string{"C13", "C10", "C16"}, Rule: "R-BUILDWRITE", KeySub: "Keychain",
+		Why: "the keychain stages keys per group in its own map: two scopes with the same group name overwrite each other's key",
+		Edits: []Edit{{File: "cmds/server/config/secret/keychain.go", Old: `type Keychain struct{}`, New: `type Keychain struct{ keys map[string]string }`},
+			{File: "cmds/server/config/secret/keychain.go", Old: `	return func(ctx context.Context, username string) ([]byte, error) {
+		return []byte(kc.Key), nil
+	}`, New: `	k.keys[kc.Group] = kc.Key
+	group := kc.Group
+	return func(ctx context.Context, username string) ([]byte, error) {
+		return []byte(k.keys[group]), nil
+	}`}}})
+	addMutant(Mutant{Name: "c08-first-packet-fast-path", Props: []string{"C08", "C07", "C20"}, Rule: "R-SEQ", KeySub: "new-flow-only-on-miss",
+		Why: "sequence number 1 is reported as a new flow without consulting the table: a repeated START of a live session is dispatched again and counted twice",
+		Edits: []Edit{{File: "sessions.go", Old: `	s.Lock()
+	defer s.Unlock()
+	sc, ok := s.known[h.SessionID]
+	if !ok {
+		sessionsGetMiss.Inc()
+		return nil, nil`, New: `	if h.SeqNo == 1 {
+		return nil, nil
+	}
+	s.Lock()
+	defer s.Unlock()
+	sc, ok := s.known[h.SessionID]
+	if !ok {
+		sessionsGetMiss.Inc()
+		return nil, nil`}}})
+	addMutant(Mutant{Name: "c08-seqno-setter-keeps-one-octet", Props: []string{"C08", "C06"}, Rule: "R-MIRROR", KeySub: "",
+		Why:   "the header option keeps only the low octet: 256 (after request 255) is recorded as 0 and number 1 is accepted again",
+		Edits: []Edit{{File: "header.go", Old: `		h.SeqNo = SequenceNumber(v)`, New: `		h.SeqNo = SequenceNumber(uint8(v))`}}})
+	addMutant(Mutant{Name: "c05-read-timeout-continues", Props: []string{"C05", "C07", "C17"}, Rule: "R-LOOP", KeySub: "",
+		Why: "a read error is not terminal: the next read starts in the middle of the stalled packet",
+		Edits: []Edit{{File: "server.go", Old: `			packet, err := c.read()
+			if err != nil {`, New: `			packet, err := c.read()
+			if ne, ok := err.(net.Error); ok && ne.Timeout() {
+				continue
+			}
+			if err != nil {`}}})
 }
